@@ -188,5 +188,5 @@ def hyp_cases(draw, tier):
 
 
 PARTS = [
-    Part("dict-form", run, strategy=lambda tier: hyp_cases(tier), n={"quick": 2000, "thorough": 60000}),
+    Part("dict-form", run, strategy=lambda tier: hyp_cases(tier), n={"quick": 2000, "thorough": 200000}),
 ]
